@@ -56,9 +56,16 @@ def generate(R, tier, focus):
             nm_ = len(inner['mags']['edges'])
             for k in range(R.randint(1, 3)):
                 b = gen.quadkey_bounds(R.choice(inner['region']['quadkeys']))
+                lon_, lat_ = b[0], gen.dec(b[1] + (b[3] - b[1]) * R.choice(gen.FRACS), 6)
+                north = [gen.quadkey_bounds(q) for q in inner['region']['quadkeys']]
+                north = [x for x in north if x[1] == 0.0]
+                if north and R.random() < 0.5:
+                    # ... or exactly on the equator, the one parallel shared by tiles whose value is exact (0.0)
+                    b = R.choice(north)
+                    lon_, lat_ = gen.dec(b[0] + (b[2] - b[0]) * R.choice(gen.FRACS), 6), 0.0
                 inner['obs'][0]['events'].insert(
                     R.randint(0, len(inner['obs'][0]['events'])),
-                    ['qedge%d' % k, gen.T0_MS + 7000 + k, gen.dec(b[1] + (b[3] - b[1]) * R.choice(gen.FRACS), 6), b[0], 5.0,
+                    ['qedge%d' % k, gen.T0_MS + 7000 + k, lat_, lon_, 5.0,
                      gen.mag_in_bin(R, inner['mags'], R.randrange(nm_))])
         channel = R.choice(('events', 'cells', 'cells'))
         if inner['obs'][0].get('edge_world'):
@@ -180,17 +187,7 @@ def _multiset_close(a, b):
     return models.close_seq(a, b, 1e-9, 1e-12)
 
 
-def write_world_dat(path, world):
-    dm = world['mags']['dm']
-    dh = world['region']['dh']
-    lines = []
-    mask = world['region'].get('mask') or [1] * len(world['region']['origins'])
-    for o, row, fl in zip(world['region']['origins'], world['rates'], mask):
-        for k, m0 in enumerate(world['mags']['edges']):
-            lines.append('%r %r %r %r 0.0 30.0 %r %r %r %d' % (o[0], gen.dec(o[0] + dh), o[1], gen.dec(o[1] + dh), m0,
-                                                             gen.dec(m0 + dm, 4), row[k], fl))
-    with open(path, 'w') as f:
-        f.write('\n'.join(lines) + '\n')
+write_world_dat = build.write_world_dat
 
 
 def _inside(events, region):
